@@ -78,6 +78,7 @@ class Engine(ValueOps, ExprOps, CallOps, StmtOps):
         self.cur_raises = {}
         self.spec_depth = {}
         self.hole_log = []
+        self.guards = []
 
     # ------------------------------------------------------------ names (ghost variables)
     def ev_Name(self, node):
@@ -101,22 +102,29 @@ class Engine(ValueOps, ExprOps, CallOps, StmtOps):
     # ------------------------------------------------------------ spec expressions
     def spec_eval(self, text, env=None):
         node = ast.parse(text.strip(), mode='eval').body
-        saved_mode = self.spec_mode
+        saved_mode, saved_mute = self.spec_mode, self.st.mute
         self.spec_mode = True
+        self.st.mute = True
         try:
             return self.ev(node)
         finally:
             self.spec_mode = saved_mode
+            self.st.mute = saved_mute
 
     def spec_eval_bool(self, text):
         node = ast.parse(text.strip(), mode='eval').body
-        saved_mode = self.spec_mode
+        saved_mode, saved_mute = self.spec_mode, self.st.mute
         self.spec_mode = True
+        self.st.mute = True
         try:
             c, _, _ = self.cond(node)
             return c
+        except PathInfeasible:
+            # an ill-typed sub-expression: the clause is undefined here -> unconstrained
+            return self.st.decls.const('undef', 'Bool')
         finally:
             self.spec_mode = saved_mode
+            self.st.mute = saved_mute
 
     def spec_builtin(self, name, node):
         st = self.st
@@ -154,8 +162,11 @@ class Engine(ValueOps, ExprOps, CallOps, StmtOps):
         mark = len(st.pc)
         c, _, _ = self.cond(lam.body)
         st.env = saved
-        side = [t for t, _ in st.pc[mark:]]
+        side = [t for t, k in st.pc[mark:] if k in ('wf', 'def', 'lib')]
+        cside = [t for t, k in st.pc[mark:] if k not in ('wf', 'def', 'lib')]
         del st.pc[mark:]
+        if cside:
+            raise Unsupported('case split inside a quantifier body', node)
         rng = []
         if len(bounds) == 2:
             for b in bvs:
@@ -217,7 +228,7 @@ class Engine(ValueOps, ExprOps, CallOps, StmtOps):
         self.spec_mode = True
         try:
             if not sf.rec:
-                return self.spec_apply(fd, full)
+                return self.spec_apply(fd, full, sf.ret)
             vers = '_'.join(str(st.heapver.get(a, 0)) for a in sf.reads)
             fname = 'sf_%s%s' % (name, ('_h' + vers) if sf.reads else '')
             rsort = SORT_OF.get(sf.ret, 'Int' if sf.ret == 'seq' else 'Val')
@@ -230,7 +241,7 @@ class Engine(ValueOps, ExprOps, CallOps, StmtOps):
                 self.seq_axioms_done.add(key)
                 self.spec_depth[name] = depth + 1
                 try:
-                    body = self.spec_apply(fd, full)
+                    body = self.spec_apply(fd, full, sf.ret)
                 finally:
                     self.spec_depth[name] = depth
                 st.assume(self._spec_eq(res, body, sf), 'def')
@@ -238,14 +249,22 @@ class Engine(ValueOps, ExprOps, CallOps, StmtOps):
         finally:
             self.spec_mode = saved_mode
 
-    def spec_apply(self, fd, args):
+    def spec_apply(self, fd, args, ret='any'):
         st = self.st
         saved = st.env
+        saved_mute = st.mute
+        st.mute = True
         st.env = dict(zip([a.arg for a in fd.args.args], args))
         try:
             return self.spec_body(list(fd.body))
+        except PathInfeasible:
+            # ill-typed application: the spec function is unconstrained there
+            if ret == 'seq':
+                return SV('tuple', seq=st.decls.const('undef', 'Int'), ty=frozenset([('tuple', None)]))
+            return self.fresh_typed('undef', ret if ret in ('str', 'int', 'bool') else 'any')
         finally:
             st.env = saved
+            st.mute = saved_mute
 
     def spec_body(self, stmts):
         """functional evaluation of a spec function body: assignments, if/return; branches merged by ite"""
@@ -298,8 +317,32 @@ class Engine(ValueOps, ExprOps, CallOps, StmtOps):
                 return self.ev(node.body)
             if c == FALSE:
                 return self.ev(node.orelse)
-            return self.merge_ite(c, self.ev(node.body), self.ev(node.orelse))
+            self.guards.append(c)
+            try:
+                a = self.ev(node.body)
+                if a.kind == 'val':
+                    a = self.narrow_if_determined(a)
+            finally:
+                self.guards.pop()
+            self.guards.append(mk_not(c))
+            try:
+                b = self.ev(node.orelse)
+                if b.kind == 'val':
+                    b = self.narrow_if_determined(b)
+            finally:
+                self.guards.pop()
+            return self.merge_ite(c, a, b)
         return ExprOps.ev_IfExp(self, node)
+
+    def narrow_if_determined(self, sv):
+        if 'any' in sv.ty:
+            return sv
+        kinds = sorted({atom_kind(a) for a in sv.ty})
+        left = self.prune_kinds(sv.term, kinds)
+        if len(left) == 1:
+            sub = frozenset(a for a in sv.ty if atom_kind(a) == left[0])
+            return self._unbox_kind(sv.term, left[0], sub)
+        return sv
 
     def _spec_result(self, app, sf):
         if sf.ret == 'str':
